@@ -352,12 +352,24 @@ def c06(ctx, res):
                 ("across_fe00_string", ".orig xFDF0\nlea r0 m\nputs\nhalt\n.blkw #32\nm .stringz \"hi\"\n"),
                 ("across_fe00_to_ffff", ".orig xFD80\nand r0 r0 #0\nadd r0 r0 #9\nputn\nhalt\n.blkw #634\n.fill x1\n"),
                 ("across_fe00_big_blkw", "and r0 r0 #0\nadd r0 r0 #3\nputn\nhalt\nbuf .blkw xCE00\n"),
-                ("ends_at_fdff", ".orig xFDFC\nand r0 r0 #0\nadd r0 r0 #1\nputn\nhalt\n")]
+                ("ends_at_fdff", ".orig xFDFC\nand r0 r0 #0\nadd r0 r0 #1\nputn\nhalt\n"),
+                # images whose last word is xFFFE (the loader's HALT goes to xFFFF): the largest that fit
+                ("ends_at_fffe_from_default_origin", "and r0 r0 #0\nadd r0 r0 #2\nputn\nhalt\n.blkw xCFFB\n"),
+                ("one_word_at_fffe", ".orig xFFFE\n.fill x1\n"), ("empty_at_ffff", ".orig xFFFF\n")]
     for k, (tag, srctext) in enumerate(directed):
         name, obj = "dir%d.asm" % k, "dir%d.lc3" % k
         _write(os.path.join(d, name), srctext)
         c = lace(ctx, ["compile", name, obj], cwd=d)
         res.evaluations += 1
+        # number of statement words of the ones that are plainly valid programs (every operand fits, every
+        # label is defined, the image ends below x10000): these compile, to 2(n+1) bytes
+        n_words = {"crlf": 6, "no_final_newline": 6, "across_fe00_string": 38, "across_fe00_to_ffff": 639, "across_fe00_big_blkw": 4 + 0xCE00,
+                   "ends_at_fdff": 4, "ends_at_fffe_from_default_origin": 0xCFFF, "one_word_at_fffe": 1, "empty_at_ffff": 0}.get(tag)
+        size = os.path.getsize(os.path.join(d, obj)) if os.path.exists(os.path.join(d, obj)) else None
+        if n_words is not None and (c.rc != 0 or size != 2 * (n_words + 1)):
+            res.violate("C06/compile-failed", "`lace compile` of a valid program (%s: %d statement words) exits %s and leaves %s bytes; the object file has 2(n+1) = %d"
+                        % (tag, n_words, c.rc, size, 2 * (n_words + 1)), {"kind": tag, "source": srctext[:300], "compile": c.brief()})
+            continue
         if c.rc != 0:
             res.cls("directed_round_trip:compile_rejects:" + tag)
             continue
@@ -645,6 +657,10 @@ def c07(ctx, res):
     # sources that produce no word at all
     for text in ("", "\n", "; only a comment\n", ".orig x3000\n", ".orig x3000\n.end\n", ".end\n", ".break\n", ".blkw #0\n", ".end\nhalt\n", "   \n\t\n"):
         cases.append((text, False, "empty_program"))
+    # the largest programs there are: 65535 statements from origin 0, and images whose last word is xFFFE
+    for text in (".orig x0000\nhalt\n.blkw xFFFE\n", ".orig x0000\nhalt\n.blkw xFFFD\n", ".orig x0001\nhalt\n.blkw xFFFD\n", "halt\n.blkw xCFFE\n",
+                 ".orig xFFFE\nhalt\n", ".orig x0000\nhalt\n.blkw xFFFF\n", ".orig x0002\nhalt\n.blkw xFFFD\n"):
+        cases.append((text, False, "largest_program"))
     # the feature flag written in front of the subcommand (`lace -f stack check x.asm`): whatever it
     # means there, it means the same to check, compile and run
     for text in ("push r0\npop r1\nhalt\n", "call f\nhalt\nf rets\n", "add r0 r0 #1\nhalt\n", "PUSH R1\n"):
@@ -2031,6 +2047,32 @@ def c18_cli(ctx, res):
             if on.rc != 0 or b"8" not in body:
                 res.violate("C18/cli/flag-on-not-honoured/far-call", "`lace %s -f stack` on a program whose calls reach %d words forwards and backwards: exit %s, output %r; with the flag it assembles and executes (prints 8)"
                             % (sub, gap + 4, on.rc, body[-40:]), {"source": far % gap, "run": on.brief()})
+    # ... and calls the field cannot hold are refused by the assembler, flag or not
+    for gap in (520, 600, 900, 1015):
+        _write(os.path.join(d, "toofar%d.asm" % gap), far % gap)
+        for sub, extra in (("check", []), ("compile", ["toofar%d.lc3" % gap]), ("run", ["--minimal"])):
+            on = lace(ctx, [sub, "toofar%d.asm" % gap] + extra + ["-f", "stack"], cwd=d, stdin=b"", timeout=30)
+            res.evaluations += 1
+            res.cls("l2:extension_program_with_calls_out_of_reach")
+            if on.rc == 0 or on.crashed or on.rc is None:
+                res.violate("C18/cli/call-out-of-reach-accepted", "`lace %s -f stack` takes a program whose calls are %d words away (exit %s): the field holds -512..511, such a program cannot execute as written"
+                            % (sub, gap + 4, on.rc), {"source": far % gap, "run": on.brief()})
+    # the four instructions leave the condition codes alone (only loads and arithmetic set them)
+    cc_progs = {
+        "after_pop": "ld r1 m3\npush r1\nand r2 r2 #0\npop r3\nbrz good\nlea r0 bad\nputs\nhalt\ngood lea r0 ok\nputs\nhalt\nm3 .fill #-3\nbad .stringz \"BAD\"\nok .stringz \"OK\"\n",
+        "after_push": "ld r1 m3\nand r2 r2 #0\npush r1\nbrz good\nlea r0 bad\nputs\nhalt\ngood lea r0 ok\nputs\nhalt\nm3 .fill #-3\nbad .stringz \"BAD\"\nok .stringz \"OK\"\n",
+        "after_call_and_rets": "ld r1 m3\ncall f\nbrn good\nlea r0 bad\nputs\nhalt\ngood lea r0 ok\nputs\nhalt\nf brn g2\nlea r0 bad\nputs\ng2 rets\nm3 .fill #-3\nbad .stringz \"BAD\"\nok .stringz \"OK\"\n",
+        "pop_of_zero_after_negative": "and r1 r1 #0\npush r1\nld r2 m3\npop r3\nbrn good\nlea r0 bad\nputs\nhalt\ngood lea r0 ok\nputs\nhalt\nm3 .fill #-3\nbad .stringz \"BAD\"\nok .stringz \"OK\"\n"}
+    for name, src in cc_progs.items():
+        _write(os.path.join(d, "cc_%s.asm" % name), src)
+        for sub, extra in (("run", ["--minimal"]), ("debug", ["--minimal", "--command", "step into 3;continue"])):
+            on = lace(ctx, [sub, "cc_%s.asm" % name] + extra + ["-f", "stack"], cwd=d, stdin=b"", timeout=30)
+            res.evaluations += 1
+            res.cls("l2:extension_leaves_condition_codes")
+            body, _h = program_output(on.out)
+            if on.rc != 0 or b"OK" not in body or b"BAD" in body:
+                res.violate("C18/cli/extension-changes-condition-codes", "`lace %s -f stack` on a program that branches right %s: exit %s, output %r (OK expected: push, pop, call and rets set no condition code)"
+                            % (sub, name.replace("_", " "), on.rc, body[-40:]), {"source": src, "run": on.brief()})
     # opcode 0xD reached under the debugger without the flag: the VM stops with status 1 there too,
     # whatever command was driving it and whatever the script says afterwards
     for k, word in enumerate(("xD400", "xD000", "xDC01", "xD800")):
@@ -2104,7 +2146,7 @@ def c18_cli(ctx, res):
     watch_history(ctx, res, cp, "C18", 60, stack=True)
     watch_history(ctx, res, cp, "C18", 61, ext_sources=True)
     res.require(["l2:ext_program", "l2:plain_program", "l2:raw_0xD", "l2:plain_program_run", "l2:plain_program_run_r7_changed",
-                 "watch_recheck", "watch_recheck_with_stack_flag", "l2:extension_program_under:debug", "l2:extension_program_with_far_calls", "l2:plain_program_prints_registers", "l2:raw_0xD_under_debugger",
+                 "watch_recheck", "watch_recheck_with_stack_flag", "l2:extension_program_under:debug", "l2:extension_program_with_far_calls", "l2:extension_program_with_calls_out_of_reach", "l2:extension_leaves_condition_codes", "l2:plain_program_prints_registers", "l2:raw_0xD_under_debugger",
                  "l2:plain_program_at_top_of_user_memory", "l2:plain_program_with_0xD_data:lc3", "l2:extension_mnemonic_through_eval"], "L2")
 
 
@@ -2337,7 +2379,10 @@ def c05_cli(ctx, res, limit):
     # script), with and without the flag, on texts that use the extension's words as instructions and as
     # would-be labels: a diagnostic or a run, never an abort
     words = ["push r0\nhalt\n", "pop r1\n", "call f\nhalt\nf rets\n", "rets\n", "push .fill x1\nld r0 push\nhalt\n", "halt\ncall halt\n", "POP: add r0 r0 #1\nhalt\n",
-             "lea r0 m\nputs\nhalt\nm .stringz \"push pop\"\n", "; push pop call rets\nhalt\n"]
+             "lea r0 m\nputs\nhalt\nm .stringz \"push pop\"\n", "; push pop call rets\nhalt\n",
+             # no `.orig`, and a label out of reach of its field (found when the words are emitted)
+             "ld r0 far\n.blkw #300\nfar halt\n", "far halt\n.blkw #300\nbrnzp far\n", "jsr far\n.blkw #1100\nfar ret\n", "lea r0 s\nhalt\nt .stringz \"" + "x" * 300 + "\"\ns .fill #0\n",
+             "st r1 far\nsti r1 far\nldi r2 far\n.blkw x200\nfar .fill #0\n"]
     jobs = []
     for wi, t in enumerate(words):
         _write(os.path.join(d, "w%d.asm" % wi), t)
